@@ -485,7 +485,48 @@ func (ex *Exec) execInstr(st *State, in ssa.Instruction) []*State {
 		} else {
 			st.fr.deferFn = append(st.fr.deferFn, ex.val(st, x.Call.Value))
 		}
-	case *ssa.Go, *ssa.Send, *ssa.Select, *ssa.MakeChan, *ssa.Range, *ssa.Next, *ssa.SliceToArrayPointer, *ssa.MultiConvert:
+	case *ssa.Range:
+		mt, ok := x.X.Type().Underlying().(*types.Map)
+		if !ok {
+			panic(unsupported("range over a string"))
+		}
+		m := ex.val(st, x.X)
+		ks, vs := ctx.sortFor(mt.Key()), ctx.sortFor(mt.Elem())
+		vh, ph := ctx.mapHeaps(ks, vs)
+		hname := "IT!" + smtIdent(fr.fn.Name()+"."+x.Name())
+		ctx.heapDecl(hname, arraySort(ks, sortBool))
+		st.heap[hname] = st.define(hname, arraySort(ks, sortBool), fmt.Sprintf("((as const %s) false)", arraySort(ks, sortBool)))
+		if st.iters == nil {
+			st.iters = map[string]*iterInfo{}
+		}
+		// a nil map has no entries
+		pres := st.define("itpres", arraySort(ks, sortBool), sx("select", st.hget(ph), m.T))
+		st.assume(smtImp(sx("=", m.T, "nil"), sx("=", pres, fmt.Sprintf("((as const %s) false)", arraySort(ks, sortBool)))))
+		vals := st.define("itvals", arraySort(ks, vs), sx("select", st.hget(vh), m.T))
+		st.iters[x.Name()] = &iterInfo{Heap: hname, Pres: pres, Vals: vals, KS: ks, VS: vs, KT: mt.Key(), VT: mt.Elem()}
+		st.lastIter = x.Name()
+		st.fr.vals[x] = Val{T: "iter", S: "iter"}
+		ex.noteAssumption("range over a map visits exactly the entries present when the loop was reached, each once, in unspecified order (the loop body is assumed not to insert into or delete from that map)")
+	case *ssa.Next:
+		if x.IsString {
+			panic(unsupported("range over a string"))
+		}
+		it := st.iters[x.Iter.Name()]
+		if it == nil {
+			panic(unsupported("next on unknown iterator"))
+		}
+		ok := st.freshConst("it.ok", sortBool)
+		k := st.freshConst("it.k", it.KS)
+		v := st.freshConst("it.v", it.VS)
+		vis := st.hget(it.Heap)
+		q := fmt.Sprintf("q!k!%d", ex.counter.Add(1))
+		st.assume(smtImp(ok, smtAnd(sx("select", it.Pres, k), smtNot(sx("select", vis, k)), sx("=", v, sx("select", it.Vals, k)))))
+		st.assume(smtImp(smtNot(ok), fmt.Sprintf("(forall ((%s %s)) (! (=> (select %s %s) (select %s %s)) :pattern ((select %s %s))))", q, it.KS, it.Pres, q, vis, q, it.Pres, q)))
+		st.hset(it.Heap, smtIte(ok, sx("store", vis, k, "true"), vis))
+		kv, vv := Val{T: k, S: it.KS, Ty: it.KT}, Val{T: v, S: it.VS, Ty: it.VT}
+		ex.assumeLoaded(st, vv)
+		st.fr.vals[x] = Val{Tup: []Val{{T: ok, S: sortBool, Ty: types.Typ[types.Bool]}, kv, vv}}
+	case *ssa.Go, *ssa.Send, *ssa.Select, *ssa.MakeChan, *ssa.SliceToArrayPointer, *ssa.MultiConvert:
 		panic(unsupported(fmt.Sprintf("instruction %T", in)))
 	default:
 		panic(unsupported(fmt.Sprintf("instruction %T", in)))
